@@ -304,8 +304,8 @@ def main(argv):
             for i in tiny:
                 args = cases[i][3]
                 spec = args[args.index("-f") + 1] if "-f" in args else "1-"
-                dl = args[args.index("-d") + 1].encode() if "-d" in args else b"\t"
-                tf.append("TF %s %s %s" % (spec.encode().hex(), dl.hex(), hexd(cases[i][1])))
+                dlm = args[args.index("-d") + 1].encode() if "-d" in args else b"\t"
+                tf.append("TF %s %s %s" % (spec.encode().hex(), dlm.hex(), hexd(cases[i][1])))
             rc, fo, e5 = run_lines(drv, tf, timeout=900)
             if len(fo) != len(tf):
                 c.broken.append("C01 driver TF failed: %s" % e5[-300:])
